@@ -1482,7 +1482,7 @@ class RunGen:
         # and -- every second character being multi-byte -- a multi-byte character
         # across every fixed byte offset for one of the shifts
         small = sorted(set(self.special) | set(ext[:12])) if isinstance(ext, list) else ext
-        dense = ("\u201c1 U.S. 1\u201d; \u00a7 2\u2014id. at 3\u00e9 2 F.2d 4\u00a0\u00b6 5; supra \u00e9\u00e8\u00ea "
+        dense = ("\u201c1 U.S. 1\u201d; \u00a7 2\u2014id. at 3\u00e9 2 F.2d 4 \u00b6 5; supra \u00e9\u00e8\u00ea "
                  + (texts[0][:120] if texts else "") + " \u00a7\u00a7 7\u20138\n")
         from eyecite.tokenizers import EXTRACTORS as _ALL
 
